@@ -14,7 +14,7 @@ import (
 func init() {
 	register(&Prop{
 		ID:          "C16",
-		Explanation: "Decides non-interference by guard dominance and closed reader sets: every read of a request header in production code is enumerated; a constant key naming a forwarding header (X-Forwarded-Host/Proto/Uri/For, X-Real-IP, X-ProxyUser-IP, X-Envoy-External-Address, CF-Connecting-IP, Forwarded) occurs only in GetRequestProto/GetRequestHost/GetRequestURI, and non-constant keys only at the two reviewed sites (the configured real-client-IP parser, the request-id header); wholesale iterations over a header map stay within the reviewed list; in the three accessors the header's value is returned only on paths where IsProxied(req) was true and is otherwise used only in the emptiness test behind that guard; IsProxied returns RequestScope.ReverseProxy or false; that field is written once, from NewScope's parameter, whose only call passes opts.ReverseProxy; the real-client-IP parser is installed only under o.ReverseProxy==true, stored in the proxy only by the constructor from the options, consulted only through ip.GetClientIP / GetClientString, and reads only its one configured header. Round 7: request handling keeps no state of its own between requests — no store, map update, in-place builtin, atomic/sync.Map write or pointer-receiver library call (singleflight, caches) reached from ServeHTTP targets a package-level variable, an object built at start-up, or a constructor variable captured by the handler it returned, declared in the packages implementing this property (RS; a class-wide who-may-write rule with zero instances today: a correct memoisation would be reported until reviewed). With no header parser the client address is the peer address the server recorded and no module code writes Request.RemoteAddr (R6, shared with C15.R8).",
+		Explanation: "Decides non-interference by guard dominance and closed reader sets: every read of a request header in production code is enumerated; a constant key naming a forwarding header (X-Forwarded-Host/Proto/Uri/For, X-Real-IP, X-ProxyUser-IP, X-Envoy-External-Address, CF-Connecting-IP, Forwarded) occurs only in GetRequestProto/GetRequestHost/GetRequestURI, and non-constant keys only at the two reviewed sites (the configured real-client-IP parser, the request-id header); wholesale iterations over a header map stay within the reviewed list; in the three accessors the header's value is returned only on paths where IsProxied(req) was true and is otherwise used only in the emptiness test behind that guard; IsProxied returns RequestScope.ReverseProxy or false; that field is written once, from NewScope's parameter, whose only call passes opts.ReverseProxy; the real-client-IP parser is installed only under o.ReverseProxy==true, stored in the proxy only by the constructor from the options, consulted only through ip.GetClientIP / GetClientString, and reads only its one configured header. Round 7: request handling keeps no state of its own between requests — no store, map update, in-place builtin, atomic/sync.Map write or pointer-receiver library call (singleflight, caches) reached from ServeHTTP targets a package-level variable, an object built at start-up, or a constructor variable captured by the handler it returned, declared in the packages implementing this property (RS; a class-wide who-may-write rule with zero instances today: a correct memoisation would be reported until reviewed). With no header parser the client address is the peer address the server recorded and no module code writes Request.RemoteAddr (R6, shared with C15.R8). Round 8 (class-wide, P12): in the packages implementing this property every named error result that is used at all is examined — compared with nil, returned, stored or handed to a non-formatting function — unless the code validates the value result instead (RE; zero instances today).",
 		NotDecided:  "pairwise equality of whole responses (relational over values): the rule proves the absence of a dependence path, which is the necessary condition.",
 		Run:         runC16,
 	})
@@ -91,6 +91,8 @@ func fromRequest(v ssa.Value) bool {
 }
 
 func runC16(c *Ctx) {
+	c.R.Rule("RE-errors-examined", "in the packages implementing this property every named error result that is used at all is examined, or the value is validated instead (P12, class-wide, round 8)", 1)
+	runErrorsExamined(c, "RE-errors-examined", "pkg/requests/util")
 	c.R.Rule("RS-no-request-time-state", "request handling writes no state that outlives the request (package-level variables, objects built at start-up, constructor variables captured by handlers) declared in the packages implementing this property", 1)
 	runStateless(c, "RS-no-request-time-state", "pkg/requests/util", "pkg/ip", "pkg/apis/middleware")
 	runC16Body(c)
